@@ -535,6 +535,11 @@ def local_dimensionality(x, k=30, x_query=None, neighbor_idx=None):
         neighbors = x[neighbor_idx]
     i, j = triu_indices(k, k=1)
     neighbor_distances = norm(neighbors[..., i, :] - neighbors[..., j, :], axis=-1)
+    # duplicate cells: a zero distance has no logarithm, use the smallest positive distance instead
+    positive = neighbor_distances > 0
+    if positive.any():
+        min_positive = neighbor_distances[positive].min()
+        neighbor_distances = where(positive, neighbor_distances, min_positive)
     neighborhood_distances = sort(neighbor_distances, axis=-1)
 
     kc2 = k * (k - 1) // 2
